@@ -28,11 +28,14 @@ class Durable:
         self.count = 0
         self.crash_at = None      # int / SInt: number of the operation that does not complete
         self.armed = False
+        self.preempt = None       # optional callable(label) before every durable operation
         self.log = []
         self.phase = ''           # set by harnesses to label where a durable operation happens
 
     def op(self, kind, detail=''):
         '''Returns True if the operation completes, False if the process dies in it.'''
+        if self.preempt is not None:
+            self.preempt(f'{kind}:{detail}')
         if not self.armed:
             return True
         n = self.count
